@@ -131,6 +131,11 @@ def build_bases(tier: str) -> list[dict]:
     for b in [x for x in bases if x["carrier"]]:
         for k in (7, 9):
             extra.append({"text": pool.padded(b["text"], k), "spelling": f"LF+{k}", "carrier": False})
+    # multi-byte characters to the left of the record on its first line
+    for b in [x for x in bases if x["carrier"]]:
+        w = pool.widened(b["text"])
+        if w is not None:
+            extra.append({"text": w, "spelling": "LF+wide", "carrier": False})
     # indentation spelled with tabs (a storage convention like the newline spelling)
     n_tab = 0
     for b in bases:
